@@ -179,7 +179,8 @@ def run_freq(cfg, values=None, ctx=None):
         om = eigvals[i]
         obs.append(('pairing[%d]' % i, om, w))
         v = [eigvecs[r, i] for r in range(n)]
-        take = [t for t in range(n) if t % 3 != 0] if reduced else None
+        # reduced_dof: of the ACTIVE amplitudes (null rows/columns are removed first) every first of three (u) is condensed out
+        take = [active[q] for q in range(len(active)) if q % 3 != 0] if reduced else None
         for r in range(n):
             Kv = sum((Kd[r, q] * v[q] for q in range(n)), Sym.lift(0))
             Mv = sum((Md[r, q] * v[q] for q in range(n)), Sym.lift(0))
@@ -376,6 +377,9 @@ def configs(tier, seed):
                                 'group': '%s:second-analysis-after-redefinition' % target, 'variant': '%s/history/n=6/u=4' % path})
             out.append({'target': target, 'n': 6, 'active': list(range(6)), 'num': 2, 'path': 'dense', 'sort': False, 'reduced': True,
                         'group': '%s:dense-reduced_dof' % target, 'variant': 'dense/reduced_dof/n=6/u=6'})
+            # reduced_dof with a null term (three null amplitudes) in the middle: the modes must land on the original numbering
+            out.append({'target': target, 'n': 9, 'active': [0, 1, 2, 6, 7, 8], 'num': 2, 'path': 'dense', 'sort': False, 'reduced': True,
+                        'group': '%s:dense-reduced_dof' % target, 'variant': 'dense/reduced_dof/n=9/u=6/null-term-in-the-middle'})
     return out
 
 
